@@ -378,3 +378,8 @@ Definition table_2024 : table :=
       (OB BNe, (4, 2%nat)); (OB BNe2, (4, 2%nat)); (OB BEq, (4, 2%nat));
       (OB BAnd, (3, 2%nat)); (OB BOr, (2, 2%nat)) ]
     (-1).
+
+(* the free term algebra as value type: the parser then returns the tree it recognised *)
+Definition free1 (o : opname) (x : expr) : expr := match o with OU u => Un u x | _ => x end.
+Definition free2 (o : opname) (x y : expr) : expr := match o with OB b => Bin b x y | _ => x end.
+Definition parse_tree (tbl : table) (toks : list token) : presult expr := parse_expr expr Num Cst free1 free2 tbl toks.
